@@ -1,4 +1,101 @@
-From Coq Require Import List ZArith NArith.
-From QV Require Import TQueue.Model.
-Theorem placeholder_c08 : True. Proof. exact I. Qed.
-Print Assumptions placeholder_c08.
+From Coq Require Import List ZArith NArith Bool Arith Permutation.
+From QV Require Import TQueue.Model TQueue.Proofs TQueue.Proofs2.
+Import ListNotations.
+Local Open Scope Z_scope.
+
+(* qlength = number of nodes and qlength_stealable = number of stealable nodes on every queue, after every
+   sequence of operations (enqueue, yielded enqueue, qt_scheduler_get_thread, raw steal, qthread_steal,
+   dequeue_specific, flag/chunk changes) from every state in which they were exact *)
+Theorem counts_exact : forall ops st, sys_exact st -> sys_exact (fst (run st ops)).
+Proof. exact counts_exact_run. Qed.
+Print Assumptions counts_exact.
+
+(* nothing dropped, nothing duplicated: per task id, (queued after) + (handed to workers) = (queued before) + (enqueued) *)
+Theorem conservation : forall ops st, sys_exact st ->
+  forall t, (cntq t (queues (fst (run st ops))) + cnt t (run_removed st ops) = cntq t (queues st) + cnt t (run_added st ops))%nat.
+Proof. exact conservation_run. Qed.
+Print Assumptions conservation.
+
+(* the C scan (driven by qlength_stealable, runs of stealable nodes) takes exactly the first
+   min(desired, #stealable) stealable nodes, in queue order; the victim keeps everything else in order *)
+Theorem steal_exact_prefix : forall c v s v',
+  exact v -> 0 <= c -> dequeue_steal c false v = (s, v') ->
+  s = firstn (Z.to_nat (desired c v)) (filter stl (items v)) /\
+  length s = Nat.min (Z.to_nat (desired c v)) (count_stl (items v)) /\
+  Permutation (items v' ++ s) (items v) /\ exact v'.
+Proof. exact steal_facts. Qed.
+Print Assumptions steal_exact_prefix.
+
+Theorem steal_only_stealable : forall c lk v s v', exact v -> dequeue_steal c lk v = (s, v') ->
+  exact v' /\ Forall (fun n => stl n = true) s.
+Proof. exact exact_dequeue_steal. Qed.
+Print Assumptions steal_only_stealable.
+
+Theorem steal_progress : forall c v s v',
+  exact v -> 0 <= c -> (0 < count_stl (items v))%nat -> dequeue_steal c false v = (s, v') -> s <> [].
+Proof. exact steal_progress_l. Qed.
+Print Assumptions steal_progress.
+
+Theorem steal_at_most_desired : forall c v s v',
+  exact v -> 0 <= c -> dequeue_steal c false v = (s, v') -> Z.of_nat (length s) <= desired c v.
+Proof. exact steal_at_most_desired_l. Qed.
+Print Assumptions steal_at_most_desired.
+
+(* i++; i *= (i < n-1): starting at 0 the index is j after j steps for every j < n-1 (every entry of
+   sorted_sheplist is visited within n-1 iterations) and wraps to 0 after n-1 steps *)
+Theorem victim_scan_complete : forall n j, (j < n - 1)%nat -> Nat.iter j (next_idx n) O = j.
+Proof. exact next_idx_iter. Qed.
+Print Assumptions victim_scan_complete.
+Theorem victim_scan_wraps : forall n, (2 <= n)%nat -> Nat.iter (n - 1) (next_idx n) O = O.
+Proof. exact next_idx_wrap. Qed.
+Print Assumptions victim_scan_wraps.
+
+(* a stealable task queued on any shepherd of the thief's sorted_sheplist is obtained by an idle thief
+   (own queue empty, no other thief of its shepherd out) within one round of qthread_steal *)
+Theorem stranded_is_stealable : forall st s p,
+  sys_exact st -> 0 <= chunk st -> disable st = false -> getst st s = 0 ->
+  items (getq st s) = [] ->
+  (p < nsheps st - 1)%nat ->
+  (0 < count_stl (items (getq st (nth p (nth s (sorted st) []) O))))%nat ->
+  exists n st', qsteal st s [] = SGot n st' /\ stl n = true.
+Proof. exact stranded_is_stealable_l. Qed.
+Print Assumptions stranded_is_stealable.
+
+(* one queue, its owner only (no thief touches it): if y sits in the queue with R to its right, the owner dequeues y
+   only after every element of R was dequeued.  With thieves the statement is not proved here: _partial *)
+Theorem yield_precedence_partial : forall y ops q P R q' outs,
+  items q = P ++ y :: R -> ~ In y P -> ~ In y R ->
+  Forall (owner_op_not y) ops ->
+  qrun q ops = (q', outs) ->
+  forall k, nth_error ops k = Some QDeq -> nth_error outs k = Some [y] ->
+  forall x, In x R -> exists j, (j < k)%nat /\ In x (nth j outs []).
+Proof. exact Proofs2.yield_precedence_partial. Qed.
+Print Assumptions yield_precedence_partial.
+
+(* single worker: the queue is P ++ b :: R (a yielded waiter sits in P, b is the task it waits for).  With
+   enough scheduler rounds b is dequeued after at most |R| + #spawned rounds and nothing from P runs before b *)
+Theorem single_worker_yield_wait : forall rs q P b R,
+  items q = P ++ b :: R ->
+  (length R + length (all_spawned rs) < length rs)%nat ->
+  exists k, (k <= length R + length (all_spawned rs))%nat /\
+            nth_error (fst (sched_run q rs)) k = Some (Some b) /\
+            forall j, (j < k)%nat -> exists t, nth_error (fst (sched_run q rs)) j = Some (Some t) /\ In t (R ++ all_spawned rs).
+Proof. exact single_worker_yield_wait_l. Qed.
+Print Assumptions single_worker_yield_wait.
+
+(* an owner-dequeued task is really run, unless it is the McCoy task taken by a worker other than worker 0 ... *)
+Theorem dequeued_runs_guarded : forall st s w n,
+  mccoy n = false \/ w = O -> exists st', finish_node st s w n = FDone (GGot n) st'.
+Proof. exact dequeued_task_runs. Qed.
+Print Assumptions dequeued_runs_guarded.
+
+(* ... and in exactly that class the full statement "busy-waiting with yield for a ready task terminates" fails on a
+   multi-worker shepherd: a fair two-worker cycle in which the McCoy task is never run (known finding) *)
+Theorem mccoy_requeue_starvation_refuted :
+  exists (M A : node) (q : queue) (st : sys),
+    mccoy M = true /\ mccoy A = false /\ exact q /\ items q = [M] /\
+    (exists st', finish_node st O 1 M = FCont st') /\
+    qrun q (mccoy_cycle M A) = (q, [[M]; []; [A]; []]) /\
+    forall k, fst (qrun q (concat (repeat (mccoy_cycle M A) k))) = q.
+Proof. exact Proofs2.mccoy_requeue_starvation_refuted. Qed.
+Print Assumptions mccoy_requeue_starvation_refuted.
